@@ -742,4 +742,5 @@ func c13Gen(tier string, seed uint64, out *bufio.Writer) {
 	c13GenContexts(tier, r, out)
 	c13GenSizes(tier, r, out)
 	c13GenOverwrites(tier, r, out)
+	c13GenOverrides(tier, r, out)
 }
